@@ -332,7 +332,7 @@ def run_job1(job, tier='quick', want_trace=False, keep=None, select=None):
             if not gi(['--apply-loop-contracts']):
                 return res
         if job.enforce or job.replace:
-            if job.engine == 'B' and job.unwind:
+            if job.unwind and job.engine != 'A':
                 uw = ['--unwind', str(job.unwind), '--unwinding-assertions']
                 for u in job.unwindset:
                     uw += ['--unwindset', u]
